@@ -147,6 +147,8 @@ structure OClient where
   hasLeft : Bool := false
   /-- the token it joined with, if any -/
   tokenUsed : String := ""
+  /-- its writer has died (the connection failed) while it is still a member: nothing reaches it any more -/
+  deaf : Bool := false
   deriving Repr, Inhabited
 
 structure OGroup where
@@ -308,7 +310,7 @@ def checkQuiescent (o : Orc) : Option String :=
     match o.client? k with
     | none => none
     | some c =>
-      if !c.alive then none else
+      if !c.alive || c.deaf then none else
       match c.group with
       | none =>
         if c.view.isEmpty then none
@@ -422,9 +424,10 @@ def checkChat (o : Orc) (r : Report) (j : Nat) (c : OClient) (g : String) (m : M
     | some v => (o, some v)
     | none =>
       let members := o.membersOf g
+      let hears (k : Nat) : Bool := !(((o.client? k).map (·.deaf)).getD false)
       let expected : List Nat :=
-        if m.dest = "" then members.filter fun k => !(m.noecho ∧ k = j)
-        else members.filter fun k => ((o.client? k).map (·.id)) = some m.dest
+        if m.dest = "" then members.filter fun k => !(m.noecho ∧ k = j) ∧ hears k
+        else members.filter fun k => ((o.client? k).map (·.id)) = some m.dest ∧ hears k
       let got := ds.map (·.1)
       if (got.toArray.qsort (· < ·)).toList ≠ expected then
         (o, some s!"C15: {m.type} from client {j} (dest '{m.dest}', noecho={m.noecho}) was delivered to clients {got}, expected {expected} (members of {g}: {members})")
@@ -779,6 +782,11 @@ def oracle (o : Orc) (op impl : List String) : Orc × Option String :=
       if r.status ≠ "ok" then (o, none) else
       match i.toNat? with
       | some i => (o.close i, none)
+      | none => (o, none)
+    | ["killwriter", i] =>
+      if r.status ≠ "ok" then (o, none) else
+      match i.toNat? with
+      | some i => (o.modClient i fun c => { c with deaf := true }, none)
       | none => (o, none)
     | ["addup", i, id] =>
       if r.status ≠ "ok" then (o, none) else
